@@ -3,6 +3,6 @@ CONSTANTS
  DrainBug = FALSE
  LinkCode = FALSE
  DupPathBug = FALSE
- Ids <- QuickIds
-INVARIANTS PropHolds Ordered PassBound
+ Ids <- MidBfsIds
+INVARIANTS PropHolds PropExact Ordered PassBound
 CHECK_DEADLOCK TRUE
